@@ -812,15 +812,41 @@ impl EquivalenceGroup {
         left_size: usize,
         on: &[(PhysicalExprRef, PhysicalExprRef)],
     ) -> Result<Self> {
+        // Rows of the null-supplying side of an outer join are padded with
+        // NULLs: members of a class stay equal to each other (NULL = NULL), but
+        // the class is no longer constant and no longer equal to a literal.
+        fn null_padded(cls: &EquivalenceClass) -> Option<EquivalenceClass> {
+            let padded =
+                EquivalenceClass::new(cls.iter().filter(|e| !e.is::<Literal>()).cloned());
+            (!padded.is_trivial()).then_some(padded)
+        }
+        let left_padded = matches!(join_type, JoinType::Right | JoinType::Full);
+        let right_padded = matches!(join_type, JoinType::Left | JoinType::Full);
         let group = match join_type {
             JoinType::Inner | JoinType::Left | JoinType::Full | JoinType::Right => {
                 let mut result = Self::new(
-                    self.iter().cloned().chain(
-                        right_equivalences
-                            .iter()
-                            .map(|cls| cls.try_with_offset(left_size as _))
-                            .collect::<Result<Vec<_>>>()?,
-                    ),
+                    self.iter()
+                        .filter_map(|cls| {
+                            if left_padded {
+                                null_padded(cls)
+                            } else {
+                                Some(cls.clone())
+                            }
+                        })
+                        .chain(
+                            right_equivalences
+                                .iter()
+                                .map(|cls| cls.try_with_offset(left_size as _))
+                                .collect::<Result<Vec<_>>>()?
+                                .into_iter()
+                                .filter_map(|cls| {
+                                    if right_padded {
+                                        null_padded(&cls)
+                                    } else {
+                                        Some(cls)
+                                    }
+                                }),
+                        ),
                 );
                 // In we have an inner join, expressions in the "on" condition
                 // are equal in the resulting table.
